@@ -409,6 +409,13 @@ def parse_remap(body):
             vecs.append(vec)
         for mm in re.finditer(r"\(\*" + it + r"\)\.(_\w+)\s*=\s*remap\.map_from\(\(\*" + it + r"\)\.\1\)", inner):
             subs.append((vec, mm.group(1)))
+    # range-based for BY REFERENCE: for (T &x : _v) { x = remap.map_from(x); }   (by value does not remap anything)
+    for m in re.finditer(r"for\s*\(\s*[\w:]+\s*&\s*(\w+)\s*:\s*(_\w+)\s*\)\s*\{(.*?)\}", body, re.S):
+        it, vec, inner = m.group(1), m.group(2), m.group(3)
+        if re.search(r"\b" + it + r"\s*=\s*remap\.map_from\(" + it + r"\)", inner):
+            vecs.append(vec)
+        for mm in re.finditer(r"\b" + it + r"\.(_\w+)\s*=\s*remap\.map_from\(" + it + r"\.\1\)", inner):
+            subs.append((vec, mm.group(1)))
     return scal, vecs, subs
 
 
